@@ -26,6 +26,10 @@
 using namespace vf;
 using namespace vfm;
 
+// a child is declared "not returning" on CPU time (1 s, normal cases take milliseconds), not on wall time: the machine may be
+// heavily loaded by other jobs; the wall time-out given to run_child is only a backstop
+static void limit_child_cpu(int seconds = 1) { struct rlimit rl; rl.rlim_cur = (rlim_t)seconds; rl.rlim_max = (rlim_t)seconds + 1; setrlimit(RLIMIT_CPU, &rl); }
+static bool child_hung(const vf::ChildResult& cr) { return cr.kind == vf::ChildResult::TIMEOUT || (cr.kind == vf::ChildResult::SIGNALED && (cr.code == SIGXCPU || cr.code == SIGKILL)); }
 namespace c5
 {
 static const int NUPAT = 5;
@@ -299,19 +303,20 @@ VF_PART(simtub_masked_vs_removed)
     std::string what = " ; " + S.desc + " model#" + std::to_string(km) + " neigh=" + (kneigh == 0 ? "unique" : "moving nmaxi=3");
     bool reduced = S.nkeep < S.n;
     ChildResult cr = run_child([&](int wfd) {
+      limit_child_cpu();
       Obs a = run(S.full), b = run(S.red);
       double worst = 0;
       std::string d = cmpObs(a, b, 1e-9, worst);
       bool written = a.err == 0 && (!undef(a.val[2]) || !undef(a.val[6]));
       child_write(wfd, std::string(written ? "W" : "-") + fmt(a.val[2]) + "|" + decade(worst) + "|" + d);
       return 0;
-    }, 3.);
+    }, 120.);
     C.eval();
     std::string cls = (S.upat == 2 || S.upat == 4 ? ":undefined-coordinate" : S.upat ? ":undefined-value" : ":selection");
     if (!cr.clean() || cr.code != 0 || cr.data.size() < 3)
     {
       C.outcome("child:" + cr.describe());
-      C.violation(std::string("simtub:") + (cr.kind == ChildResult::TIMEOUT ? "does-not-return" : "crash") + cls, "conditional simulation " + cr.describe() + what, kase);
+      C.violation(std::string("simtub:") + (child_hung(cr) ? "does-not-return" : "crash") + cls, std::string("conditional simulation ") + (child_hung(cr) ? "uses more than 1 s of CPU (milliseconds after removal): " : "") + cr.describe() + what, kase);
       return;
     }
     size_t p1 = cr.data.find('|'), p2 = cr.data.find('|', p1 + 1);
@@ -374,7 +379,9 @@ static VD tmask(int ndim, int k)
   if (k == 4) { t[N[0]] = 0; t[N[1]] = 0; t[N[2]] = 0; }
   return t;
 }
-static const int MODELS[7] = {1, 2, 3, 4, 5, 6, 8};   // ranks in the monovariate menu (the intrinsic linear model is left out)
+// ranks in the monovariate menu; 7 = linear (intrinsic, simulated with a constant drift), entered twice: with 10 bands (the
+// Poisson intensity is clamped, masked samples cannot matter) and with 1 band (the intensity follows the TOTAL sample count)
+static const int MODELS[9] = {1, 2, 3, 7, 107, 4, 5, 6, 8};
 }  // namespace sc
 
 VF_PART(simtub_data_on_grid_nodes)
@@ -382,11 +389,11 @@ VF_PART(simtub_data_on_grid_nodes)
   using namespace c5;
   using namespace sc;
   bool T = C.thorough();
-  int nmax = T ? 5 : 4, nmod = T ? 7 : 4;
+  int nmax = T ? 5 : 4, nmod = T ? 9 : 5;
   Space sp;
   sp.axis("n", nmax - 2).axis("ndim", 2).axis("kind", 3).axis("mask", 1 << nmax).axis("tmask", NTM).axis("nbsimu", 3).axis("neigh", 2).axis("model", nmod);
   for_each_case(C, sp, [&](uint64_t id, const std::vector<int>& idx) {
-    int n = 3 + idx[0], ndim = idx[1] + 1, kind = idx[2], ktm = idx[4], nbsimu = idx[5] + 1, kneigh = idx[6], im = MODELS[idx[7]];
+    int n = 3 + idx[0], ndim = idx[1] + 1, kind = idx[2], ktm = idx[4], nbsimu = idx[5] + 1, kneigh = idx[6], im = MODELS[idx[7]] % 100, nbtuba = MODELS[idx[7]] >= 100 ? 1 : 10;
     unsigned mask = (unsigned)idx[3];
     if (mask >= (1u << n)) return;
     if (ktm == 3 && n > 4) { C.skip(); return; }   // node of sample 4 carries a datum when n = 5
@@ -398,10 +405,11 @@ VF_PART(simtub_data_on_grid_nodes)
     std::vector<int> keep = keepOf(full);
     int nkeep = 0; for (int k : keep) nkeep += k;
     if (nkeep == 0) { C.skip(); C.outcome("empty-active-set:not-judged"); return; }
+    if (im == 7 && nkeep < 2) { C.skip(); C.outcome("excluded:intrinsic-model-needs-2-data"); return; }
     Raw red = reduce_raw(full, keep);
     VD tsel = tmask(ndim, ktm);
     int nn = nnodes(ndim);
-    std::string what = " ; data=" + raw_str(full) + " grid=" + (ndim == 1 ? "5 nodes at 0..4" : "3x2 nodes at (0..2,0..1)") + " node mask=" + vstr(tsel) + " nbsimu=" + std::to_string(nbsimu) + " model=" + model_name(1, im) +
+    std::string what = " ; data=" + raw_str(full) + " grid=" + (ndim == 1 ? "5 nodes at 0..4" : "3x2 nodes at (0..2,0..1)") + " node mask=" + vstr(tsel) + " nbsimu=" + std::to_string(nbsimu) + " model=" + model_name(1, im) + " nbtuba=" + std::to_string(nbtuba) +
                        " neigh=" + (kneigh == 0 ? "unique" : "moving nmaxi=3");
     if (id % 9973 == 5) C.sample("{\"id\":" + kase + ",\"data\":" + raw_str(full) + ",\"node_mask\":" + vstr(tsel) + ",\"model\":" + jstr(model_name(1, im)) + "}");
     auto run = [&](const Raw& data) {
@@ -409,15 +417,17 @@ VF_PART(simtub_data_on_grid_nodes)
       DbP din(raw_to_db(data));
       std::unique_ptr<DbGrid> dout(mkGrid(ndim, tsel));
       ModelP m(make_model(ndim, 1, im));
+      if (im == 7) m->setDriftIRF(0);
       std::unique_ptr<ANeigh> ng(kneigh == 0 ? (ANeigh*)NeighUnique::create() : (ANeigh*)NeighMoving::create(false, 3, TEST));
       law_set_random_seed(13579);
-      o.err = simtub(din.get(), dout.get(), m.get(), ng.get(), nbsimu, 4321, 10);
+      o.err = simtub(din.get(), dout.get(), m.get(), ng.get(), nbsimu, 4321, nbtuba);
       int nc = dout->getColumnNumber();
       for (int k = 0; k < nbsimu; k++) for (int t = 0; t < nn; t++) o.add("simulation " + std::to_string(k) + " [node " + std::to_string(t) + "]", o.err ? TEST : dout->getValueByColIdx(t, nc - nbsimu + k));
       return o;
     };
     // child output: one line per finding class  "<class>|text"
     ChildResult cr = run_child([&](int wfd) {
+      limit_child_cpu();
       Obs a = run(full), b = run(red);
       double worst = 0;
       std::string d = cmpObs(a, b, 1e-9, worst);
@@ -445,12 +455,12 @@ VF_PART(simtub_data_on_grid_nodes)
       }
       child_write(wfd, out);
       return 0;
-    }, 5.);
+    }, 120.);
     C.eval();
     if (!cr.clean() || cr.code != 0 || cr.data.size() < 3)
     {
       C.outcome("child:" + cr.describe());
-      C.violation(std::string("simtub-on-nodes:") + (cr.kind == ChildResult::TIMEOUT ? "does-not-return" : "crash"), "conditional simulation " + cr.describe() + what, kase);
+      C.violation(std::string("simtub-on-nodes:") + (child_hung(cr) ? "does-not-return" : "crash"), "conditional simulation " + cr.describe() + what, kase);
       return;
     }
     bool reduced = nkeep < n;
@@ -478,9 +488,15 @@ VF_PART(simtub_data_on_grid_nodes)
       {
         size_t q = txt.find('|');
         std::string dec = txt.substr(0, q), d = txt.substr(q + 1);
-        C.outcome(std::string(kind == 0 ? "all-on-nodes:" : kind == 1 ? "some-on-nodes:" : "none-on-nodes:") + (reduced ? "some-removed:" : "nothing-removed:") + (d.empty() ? dec : "DIFFERENT"));
+        C.outcome(std::string(kind == 0 ? "all-on-nodes:" : kind == 1 ? "some-on-nodes:" : "menu-layout(some samples may sit on nodes in 1-D):") + (reduced ? "some-removed:" : "nothing-removed:") + (d.empty() ? dec : "DIFFERENT"));
         if (!d.empty())
-          C.violation(std::string("simtub-on-nodes:") + (colA ? "masked-datum-on-node:" : kind == 2 ? "off-node-data:" : "") + "differs-from-removed:model=" + model_name(1, im), "conditional simulation differs: " + d + what, kase);
+        {
+          // mechanism seen on the unchanged tree: _npointSimulated counts masked samples; for the intrinsic structures the Poisson
+          // intensity of the bands is field / (npoints / nbtuba) (clamped to >= 5 points per band): neutral with 10 bands here
+          bool poisson = im == 7 && nbtuba == 1;
+          C.violation(poisson ? "simtub:poisson-intensity-follows-total-sample-count-masked-included:linear" :
+                      std::string("simtub-on-nodes:") + (colA ? "masked-datum-on-node:" : kind == 2 ? "menu-layout:" : "") + "differs-from-removed:model=" + model_name(1, im), "conditional simulation differs: " + d + what, kase);
+        }
       }
       else if (k == 'Z') z = true;
       else if (k == 'V') C.violation("simtub-on-nodes:masked-node-holds-a-value", "masked node: " + txt + " (neither the undefined value nor the initial 0)" + what, kase);
